@@ -35,7 +35,7 @@ type c10Case struct {
 	Cfg     ref.OCRACfg `json:"cfg"`
 	SuiteBy int         `json:"suite_by"` // 0 SuiteConfig, 1 RawSuite, 2 NewRawSuite(S[4]) result, 3 NewSuite result (if non-nil)
 	NilP    bool        `json:"nil_param"`
-	URLKind int         `json:"url_kind"` // 0 url.Parse(S[0]), 1 hand-built, 2 nil
+	URLKind int         `json:"url_kind"` // 0 url.Parse(S[0]), 1 hand-built, 2 nil, 3 otpauth text assembled from parts with escapes, 4 hand-built incl. RawPath / User / Opaque
 	Hostile bool        `json:"hostile"`  // generator drew at least one argument outside the happy range
 }
 
@@ -114,6 +114,24 @@ func callC10(c c10Case) string {
 			}
 		case 1:
 			u = &url.URL{Scheme: s(0), Host: s(1), Path: s(2), RawQuery: s(3), Opaque: "", Fragment: s(4)}
+		case 3:
+			// otpauth text whose label is written with the escapes a hand-typed or foreign-generated URL may carry
+			// (an escaped colon or slash makes net/url keep a RawPath next to the decoded Path)
+			esc := []string{":", "%3A", "%3a", "%3A%20", ":%20", "%2F", "/", "@", "%40", "", "::", "%3A:", ":%3A", "%25", "%00", "%C3%A9"}
+			label := "ACME" + esc[int(c.U%uint64(len(esc)))] + "bob" + esc[int((c.U/16)%uint64(len(esc)))] + "x"
+			if c.U&(1<<20) != 0 {
+				label = esc[int((c.U/256)%uint64(len(esc)))] + label
+			}
+			text := "otpauth://" + []string{"totp", "hotp", "TOTP", ""}[int(c.Period%4)] + "/" + label + "?secret=JBSWY3DPEHPK3PXP&issuer=" + esc[int((c.U/4096)%uint64(len(esc)))] + "ACME&digits=" + fmt.Sprint(c.Digits) + "&" + s(3)
+			u, _ = url.Parse(text)
+			if u == nil {
+				return "unparsable"
+			}
+		case 4:
+			u = &url.URL{Scheme: "otpauth", Host: s(1), Path: s(2), RawPath: s(0), RawQuery: s(3), Opaque: s(4), ForceQuery: c.NilP, OmitHost: c.U&1 == 1, RawFragment: s(4)}
+			if c.U&2 != 0 {
+				u.User = url.UserPassword(s(1), s(4))
+			}
 		}
 		_, err := otp.ParseOTPAuthURL(u)
 		return fmt.Sprint(err)
@@ -357,7 +375,7 @@ func drawC10(t *rapid.T) c10Case {
 	}
 	c.SuiteBy = rapid.IntRange(0, 3).Draw(t, "suiteBy")
 	c.NilP = rapid.IntRange(0, 7).Draw(t, "nilP") == 0
-	c.URLKind = rapid.IntRange(0, 2).Draw(t, "urlKind")
+	c.URLKind = rapid.IntRange(0, 4).Draw(t, "urlKind")
 	c.Hostile = h
 	return c
 }
